@@ -1007,7 +1007,7 @@ theorem allScc_ne_diverges (g : Graph) : allScc g ≠ .error .diverges := by
       simpa using this
     simpa [allScc, hr] using pass2_term g st1 [] [] hst
 
-/-! ### the frame-list searches (the code since /repo 1dee70f) compute what the recursive ones compute -/
+/-! ### the frame-list searches (the code since /repo 323fefd) compute what the recursive ones compute -/
 
 section Iter
 variable {inc : Nat → List Nat} {far : Nat → Option Nat}
